@@ -62,6 +62,12 @@ impl<T: Send + Sync + 'static> CobwebCommandQueue<T>
     }
 }
 
+#[cfg(feature = "verif")]
+impl<T: Send + Sync + 'static> CobwebCommandQueue<T>
+{
+    pub(crate) fn verif_len(&self) -> usize { self.commands.len() }
+}
+
 impl<T: Send + Sync + 'static> Default for CobwebCommandQueue<T>
 {
     fn default() -> Self
